@@ -222,7 +222,7 @@ pub fn suites() -> Vec<Suite> {
         head_len: FACTORY_HEAD,
         op_len: FACTORY_OP,
         max_ops: 14,
-        quick_cases: 1_200,
+        quick_cases: 4_000,
         thorough_cases: 60_000,
         run,
         direct: Some(direct),
